@@ -62,6 +62,15 @@ fn eq_json<T: Queryable>(lhs: &T, rhs: &T) -> bool {
 
     if let (Some(lhs_num), Some(rhs_num)) = (lhs_f64, rhs_f64) {
         lhs_num == rhs_num
+    } else if let (Some(l), Some(r)) = (lhs.as_array(), rhs.as_array()) {
+        l.len() == r.len() && l.iter().zip(r.iter()).all(|(a, b)| eq_json(a, b))
+    } else if let (Some(l), Some(r)) = (lhs.as_object(), rhs.as_object()) {
+        l.len() == r.len()
+            && l.iter().all(|(k, v)| {
+                r.iter()
+                    .find(|(k2, _)| k2 == k)
+                    .map_or(false, |(_, v2)| eq_json(*v, *v2))
+            })
     } else {
         lhs == rhs
     }
